@@ -221,7 +221,12 @@ func vfLenStream(kind string, L, T int) []byte {
 	}
 	// what follows: further records (handshake continuation), so that bytes look like a real flight
 	for i := 0; i < T; i++ {
-		hdr := []byte{22, 3, 3, byte(T >> 8), byte(T)}
+		// a complete, valid-looking handshake record when there is room for one (a capture that wrongly restarts here would succeed)
+		tl := T - 5
+		if tl < 0 {
+			tl = T
+		}
+		hdr := []byte{22, 3, 3, byte(tl >> 8), byte(tl)}
 		if i < 5 {
 			s = append(s, hdr[i])
 		} else {
